@@ -712,7 +712,7 @@ class Ctx:
         (exactly representable, so replay is exact)"""
         if self.mode == 'conc':
             k, h = self.values[name]
-            return [h / 2.0, math.nan, math.inf, -math.inf][k]
+            return [h / 2.0, builtins.float('nan'), math.inf, -math.inf][k]       # a fresh NaN object per variable: identity matters to `in` and `is`
         k = z3.Int(name + '.k'); h = z3.Int(name + '.h'); self._reg(name, 'float', (k, h))
         self.add(z3.Or([k == a for a in allow])); self.add(h >= -halves, h <= halves)
         return SymFloat(k, z3.ToReal(h) / 2)
